@@ -490,6 +490,8 @@ func curves() []curveInfo {
 		{"sm2", sm2.P256(), oidSM2Curve, 32, true},
 		{"p256", elliptic.P256(), oidP256, 32, false},
 		{"p384", elliptic.P384(), oidP384, 48, false},
+		{"p224", elliptic.P224(), oidP224, 28, false},
+		{"p521", elliptic.P521(), oidP521, 66, false},
 	}
 }
 
